@@ -13,13 +13,31 @@
    and l1 after.  [eser] is the never re-used serial number of one registration ("the timer");
    [earm e] is the time e was registered or last re-armed, [enext e] its deadline (m_next). *)
 From OlaBase Require Import Bytes.
-From C16 Require Import Model Proofs Invariant Invariant2 Timers Due PModel PProofs PClose PAgree PAgreeW PHaz PWf PLive PAbs PSimS PSimE PSim.
+From C16 Require Import Gen Model Proofs Invariant Invariant2 Timers Due PModel PProofs PClose PAgree PAgreeW PHaz PWf PLive PAbs PSimS PSimE PSim PReg.
 Local Open Scope N_scope.
 
 Definition allocator_ok (alloc : list N -> N -> N) : Prop :=
   forall live h, ~ In (alloc live h) live /\ alloc live h <> 0.
 Definition cancel_target_ok (pickc : list N -> N -> option N) : Prop :=
   forall live h id, pickc live h = Some id -> In id live.
+
+(* Side obligations tying the regenerated constants (Gen.v: printed from the headers of the tree under test, the
+   EPoller.cpp-only ones from their initialiser expressions; the harness reports the linked values, payload K) to
+   the numbers the models and the harness assumptions use: the EPollData free-list bound of PModel.p_max_free,
+   epoll's read interest = EPOLLIN|EPOLLRDHUP and the hang-up bits being distinct from EPOLLIN/EPOLLOUT (the three
+   flag booleans of PModel.p_flags), microseconds per second / per millisecond of Model.ms_to_us, NULL and -1 as the
+   invalid timeout id / descriptor, the default poll interval, FD_SETSIZE of the boundary-fd cases, and
+   MAX_EVENTS (ready-list truncation is not modelled: scenarios use at most 4 descriptors < MAX_EVENTS). *)
+Theorem c16_consts :
+  N.of_nat p_max_free = EP_MAX_FREE_DESCRIPTORS /\ EP_MAX_EVENTS = 10 /\ 4 < EP_MAX_EVENTS /\
+  EP_READ_FLAGS = N.lor C_EPOLLIN C_EPOLLRDHUP /\
+  N.land (N.lor C_EPOLLHUP C_EPOLLRDHUP) (N.lor C_EPOLLIN C_EPOLLOUT) = 0 /\ N.land C_EPOLLIN C_EPOLLOUT = 0 /\
+  USEC_IN_SECONDS = 1000000 /\ ONE_THOUSAND = 1000 /\
+  (forall ms, ms_to_us ms = (ms / ONE_THOUSAND) * USEC_IN_SECONDS + ms mod ONE_THOUSAND * ONE_THOUSAND) /\
+  INVALID_TIMEOUT_VALUE = 0 /\ INVALID_DESCRIPTOR_PLUS_1 = 0 /\
+  (POLL_INTERVAL_SECOND, POLL_INTERVAL_USECOND) = (10, 0) /\ C_FD_SETSIZE = 1024.
+Proof. repeat split; reflexivity. Qed.
+Print Assumptions c16_consts.
 
 (* ExecuteTimeouts always returns: the model's loop never runs out of fuel, for any history,
    allocator and callback behaviour (callback scripts are finite). *)
@@ -107,6 +125,46 @@ Theorem c16_poll_sleep_bounded : forall epoll s now b e,
   peek s = Some e -> now < enext e -> now + poll_sleep epoll s now b <= enext e.
 Proof. exact (t_poll_sleep_bounded (fun _ _ => 0) (fun _ _ => None)). Qed.
 Print Assumptions c16_poll_sleep_bounded.
+
+(* ... and more generally in ANY continuation of the history: whatever happens first (registrations,
+   cancellations of other timers, time passing - e.g. loop callbacks or descriptor callbacks using the timer
+   API), the next ExecuteTimeouts serves a timer that was already due, unless a cancel was aimed at it. *)
+Theorem c16_due_timer_fires_later : forall alloc pickc, allocator_ok alloc -> cancel_target_ok pickc ->
+  forall ops0 s pre cbs post s' e, run alloc pickc init ops0 = Some s ->
+  In e (q s) -> enext e <= clock s ->
+  run alloc pickc s (pre ++ OExec cbs :: post) = Some s' ->
+  (forall id, ~ In (LCancel (eser e) id) (log s')) ->
+  exists l now, log s' = l ++ log s /\ In (LFire e now) l.
+Proof. exact t_due_fires_later. Qed.
+Print Assumptions c16_due_timer_fires_later.
+
+(* SelectServer level: one loop iteration (RunOnce -> CheckForEvents -> Poller::Poll; Model.runonce: the loop
+   callbacks and the timers they register, the due timers, then EITHER the poller sleeps min(time to the next timer,
+   poll interval) - whole milliseconds on epoll - OR the ready descriptors' callbacks run and register timers, then a
+   fresh clock reading and the due timers again), for both back-ends:
+   (1) it is the TimeoutManager history runonce_ops, so every trace theorem of this file applies to timers that are
+       registered by loop / descriptor callbacks and to any sequence of iterations; the sleep is poll_sleep, which
+       never passes the next deadline (c16_poll_sleep_bounded);
+   (2) a timer that is due when the iteration starts, and at which no cancel is aimed, fires in this iteration;
+   (3) when the iteration ends no queued timer is overdue (so a timer whose deadline is reached by the wake-up time
+       has fired, or was cancelled: c16_no_timer_lost / c16_cancel_others_unaffected). *)
+Theorem c16_selectserver_iteration : forall alloc pickc, allocator_ok alloc -> cancel_target_ok pickc ->
+  forall ops0 s epoll b loop_regs desc_regs cbs1 cbs2 s',
+  run alloc pickc init ops0 = Some s ->
+  runonce alloc pickc epoll s b loop_regs desc_regs cbs1 cbs2 = Some s' ->
+  (exists sleep, run alloc pickc s (runonce_ops epoll sleep loop_regs desc_regs cbs1 cbs2) = Some s' /\
+     forall s1 now1, do_exec alloc pickc (do_regs alloc s loop_regs) cbs1 = Some (s1, now1) ->
+       sleep = poll_sleep epoll s1 now1 b) /\
+  (forall e, In e (q s) -> enext e <= clock s -> (forall id, ~ In (LCancel (eser e) id) (log s')) ->
+     exists l now, log s' = l ++ log s /\ In (LFire e now) l) /\
+  (forall x, In x (q s') -> clock s' < enext x).
+Proof.
+  intros alloc pickc Ha Hp ops0 s epoll b lr dr cbs1 cbs2 s' Hr H. split; [|split].
+  - exact (runonce_run alloc pickc epoll s b lr dr cbs1 cbs2 s' H).
+  - intros e Hq Hd Hnc. exact (t_runonce_fires_due alloc pickc Ha Hp ops0 s epoll b lr dr cbs1 cbs2 s' e Hr Hq Hd H Hnc).
+  - exact (t_runonce_post alloc pickc epoll s b lr dr cbs1 cbs2 s' H).
+Qed.
+Print Assumptions c16_selectserver_iteration.
 
 (* Single-shot timers fire once: no other firing in the whole trace has the same serial. *)
 Theorem c16_single_once : forall alloc pickc, allocator_ok alloc -> cancel_target_ok pickc ->
@@ -296,6 +354,31 @@ Proof.
     constructor; auto. exact (proj1 (p_inv_run c true ops)). repeat split; auto.
 Qed.
 Print Assumptions c16_close_reported.
+
+(* The same with the premise stated on the HISTORY instead of on the poller tables: in any state reached by any
+   run of either back-end (arbitrary scripts, also ones that add/remove other descriptors, any operations), a
+   connected, not delete_on_close descriptor d that is registered according to the Add/Remove calls made so far
+   (ghost st_regr: set by AddReadDescriptor, cleared by RemoveReadDescriptor, nothing else), whose peer has hung
+   up, whose data is drained and whose on_close has not run yet gets its close callback from ONE Poll(), provided no
+   scripted action is aimed at d.  (That "registered per history" implies "in the poller's table" is an invariant
+   proved from the initial state: PReg.p_ws_run / p_we_run.  For delete_on_close descriptors only the table-level
+   theorem above is available.) *)
+Theorem c16_close_reported_history :
+  forall (c : p_cfg) (ops : list p_op) (d : nat) (desc be : bool),
+    (forall d' a, In a (pc_rs (p_get c d') ++ pc_ws (p_get c d') ++ pc_cs (p_get c d')) -> p_act_target a <> d) ->
+    d < length c -> pc_conn (p_get c d) = true -> pc_doc (p_get c d) = false ->
+    let s := p_run be c ops in
+    st_regr s d = true -> st_closed s d = true -> st_pend s d = [] -> st_onclose s d = true -> st_del s d = false ->
+    exists e, In e (st_log (p_step c s (POPoll desc))) /\ le_d e = d /\ le_kind e = PKClose.
+Proof. exact p_close_reported_history. Qed.
+Print Assumptions c16_close_reported_history.
+
+Example c16_close_reported_history_premises :
+  let c := [Build_p_dcfg PSock true false 9 [] [] []; Build_p_dcfg PSock false false 9 [PAAddW 1; PARemR 1] [PARemW 1] []] in
+  let ops := [POAddR 0; POAddR 1; POWrite 0 [4%N]; POWrite 1 [5%N]; POPoll true; POClosePeer 0] in
+  forall be, let s := p_run be c ops in
+  (st_regr s 0, st_closed s 0, st_pend s 0, st_onclose s 0, st_del s 0) = (true, true, [], true, false).
+Proof. intros be; destruct be; vm_compute; reflexivity. Qed.
 
 (* the premises are reachable: register, peer closes -> the descriptor is in the table in the required state
    (with another descriptor whose callbacks add/remove itself), on both back-ends *)
